@@ -1,6 +1,6 @@
 SPECIFICATION Spec
 CONSTANTS
-  MaxOps = 2
-  Tables = {1, 2, 3, 4}
-  WorldSel = {0}
+  MaxLen = 0
+  RxChars = {"a"}
+  Ops = {"like", "rx"}
 INVARIANTS EmitWorld Emit
